@@ -1,6 +1,7 @@
 import RedactVerif.Props.L2
 import RedactVerif.Proofs.U.Top
 import RedactVerif.Props.FactsClassify
+import RedactVerif.Props.FactsSkelPrinter
 /-
 C17 — a registered error hook renders every error operand, except under Unsafe.
 
